@@ -1,6 +1,7 @@
 package main
 
 import (
+	abci "github.com/cometbft/cometbft/abci/types"
 	"encoding/json"
 	"flag"
 	"fmt"
@@ -25,6 +26,22 @@ func main() {
 			r.PrepareTxs = nil
 			js, _ := json.Marshal(r)
 			fmt.Println(string(js))
+		}
+		return
+	case "smoke2":
+		w := NewWorld("smoke", false, nil)
+		defer w.Close()
+		w.HonestBlock(nil, gasReq(w.Height, 1000), goattypes.BridgeRequests{}, goattypes.RelayerRequests{})
+		for i := 0; i < 3; i++ {
+			q := gasReq(w.Height, 5)
+			va, _ := valIdentity(w.ValPriv)
+			q.Claims = append(q.Claims, &goattypes.ClaimRequest{Id: uint64(i), Validator: va, Recipient: va})
+			btx := w.blockHashesTx()
+			cr, cerr := w.App.CheckTx(&abci.RequestCheckTx{Tx: btx, Type: abci.CheckTxType_New})
+			fmt.Printf("checktx %d %v %T count=%d gaswanted=%d\n", cr.GetCode(), cerr, w.App.Mempool(), w.App.Mempool().CountTx(), cr.GetGasWanted())
+			r := w.HonestBlock([][]byte{btx}, q, goattypes.BridgeRequests{}, goattypes.RelayerRequests{})
+			blk := w.decodeEthBlock(r.PrepareTxs[0])
+			fmt.Println("height", w.Height-1, "ntx", len(r.PrepareTxs), "codes", r.TxCodes, "extra0", blk.Payload.ExtraData[0], "elTxs", len(blk.Payload.Transactions), r.Process, r.FinalizeErr)
 		}
 		return
 	case "registry":
